@@ -23,6 +23,7 @@ TRUSTED = {
     'ring': 'polynomial identities in the solver results are decided by normalisation in the field of rational functions (sympy, exact) for small terms and by Schwartz-Zippel evaluation at 4 random points of Z_p, p = 2^61-1 and 2^89-1 (one-sided error < 1e-60) for large ones; back end recorded per query as ring(exact) / ring(pit)',
     'json': 'json.dumps/loads and yaml.dump/safe_load are inverse to each other on trees of dict[str,..], list, str, bool, int, finite float and reject complex numbers (DESIGN sec. 4)',
     'frame': 'the FRAME rules of pyvc/frame.py (which expressions allocate, which calls mutate) are a hand-written model of Python/numpy aliasing; numpy basic indexing is treated as a view, library calls not listed as allocating are treated as returning shared objects',
+    'schemdraw': 'schemdraw 0.19 is replaced by the interface model pyvc/schemdraw_model.py: constructor keywords are kept in _userparams, placement/styling methods have no effect on the netlist logic, terminal points of a placed element are absanchors[start/end] (given by the contracts), Point is a pair; placement geometry is covered only by the real-schemdraw stand-in',
     'lean': 'Lean 4.33 kernel + Mathlib for spec-level lemmas (axioms: propext, Classical.choice, Quot.sound)',
 }
 
